@@ -47,8 +47,11 @@ EXPLANATION = ("Theorems about the functions the driver runs (parsimony = runNod
                "Driver inputs: driver_input_in_domain (parseTree ids distinct, matrixOf matrices satisfy RectM), gaps_flag_monotone_driver "
                "(no matrix-shape hypotheses left), weights_longer + WOk relaxed to 'at least one weight per character', "
                "reroot_copy_independent (renumbered/shuffled copies of re-rooted trees, as the harness scores them), "
-               "unrooted_child_order_independent. Not proved: which members an ambiguity code denotes (oracle sweep only); in-place matrix "
-               "edits are resolved by the harness before the model sees them (oracle only); polytomy_score_minimal is the minimum of the "
+               "unrooted_child_order_independent. Ambiguity codes: table_members_ok / table_members_complete (every multi-state symbol of the regenerated tables denotes "
+               "exactly the union of its members' sets, in both gap modes; fundamental symbols are the singletons in index order). Matrix "
+               "objects: editCell_content, editSeq_content, mat_history_eq_fresh (histories with in-place matrix edits: every call = fresh "
+               "tree + freshly built matrix of the current content). In-place matrix "
+               "edits are made by the model on its own matrix objects (mat_history_eq_fresh) and compared per call; polytomy_score_minimal is the minimum of the "
                "ladder resolution, a lower bound of the polytomy's own minimum. No _partial theorem. "
                "Hypotheses: distinct node identities; for the value theorems ViewU, RectM (rows of one length), one weight per character.")
 
@@ -520,7 +523,9 @@ def run_case(ctx, dendropy, case, pending):
     calls_on = [0]          # scoring calls already made on each object (clones inherit)
     mats = {}               # matrix objects that live across calls: key -> {"m": object, "alph", "rows" (current content), "scored", "edited"}
     results = []
-    resolved = []           # the ops as the model sees them: every scoring call with the CURRENT content of its matrix
+    resolved = []           # the ops as the oracle sees them: every scoring call with the CURRENT content of its matrix
+    model_ops = []          # the ops as the model sees them: matrix objects are created, edited in place and scored by the model itself
+    midx = {}               # harness matrix key -> index of the model's matrix object
     nscore = 0
     nedit = 0
     sets_lines = []
@@ -536,6 +541,7 @@ def run_case(ctx, dendropy, case, pending):
                 calls_on.append(calls_on[op["obj"]])
             results.append("c")
             resolved.append(op)
+            model_ops.append(op_line(op))
             continue
         if op["op"] == "E":
             ent = mats[op["mat"]]
@@ -548,6 +554,12 @@ def run_case(ctx, dendropy, case, pending):
                         row[1] = row[1][:op["idx"]] + op["sym"] + row[1][op["idx"] + 1:]
             ent["edited"] += 1
             nedit += 1
+            # the model makes the same edit on its own matrix object (and tracks the content itself)
+            if op["how"] == "seq":
+                model_ops.append("E %d seq %d =%s" % (midx[op["mat"]], op["bit"], op["syms"]))
+            else:
+                model_ops.append("E %d cell %d %d =%s" % (midx[op["mat"]], op["bit"], op["idx"], op["sym"]))
+            results.append("m")
             continue
         nscore += 1
         obj = objs[op["obj"]]
@@ -556,8 +568,15 @@ def run_case(ctx, dendropy, case, pending):
             if op.get("rows"):
                 mats[op["mat"]] = {"m": build_matrix(dendropy, tns, op), "alph": op["alph"],
                                    "rows": [list(r) for r in op["rows"]], "scored": 0, "edited": 0}
+                midx.setdefault(op["mat"], len(midx))
+                model_ops.append("M %d %s %s" % (midx[op["mat"]], op["alph"], " ".join("%d =%s" % (b, sy) for b, sy in op["rows"])))
+                results.append("m")
             ent = mats[op["mat"]]
-            op = dict(op, alph=ent["alph"], rows=[list(r) for r in ent["rows"]])
+            w = "-" if op["weights"] is None else (",".join(str(x) for x in op["weights"]) or ".")
+            model_ops.append("SM %d %d %d %s" % (op["obj"], midx[op["mat"]], 1 if op["gaps"] else 0, w))
+            op = dict(op, alph=ent["alph"], rows=[list(r) for r in ent["rows"]])     # for the oracle: the CURRENT content (harness's own tracking)
+        else:
+            model_ops.append(op_line(op))
         resolved.append(op)
         with time_limit(30):
             got, m = impl_call(dendropy, obj, tns, op, ent["m"] if ent else None)
@@ -630,7 +649,7 @@ def run_case(ctx, dendropy, case, pending):
              kind=_kind(case.get("how")) or ("matrix edited in place" if nedit else ("history" if nscore >= 2 else "single")))
     if nedit:
         ctx.count("in-place matrix edits", nedit)
-    line = "hist %s | %s" % (" ".join(toks), " | ".join(op_line(o) for o in resolved))
+    line = "hist %s | %s" % (" ".join(toks), " | ".join(model_ops))
     pending.append((line, case, " | ".join(results), "hist"))
     for l, want in sets_lines:
         pending.append((l, case, want, "sets"))
@@ -966,7 +985,7 @@ def run(ctx):
     pending = []
     for alph in sorted(ALPH_CLASS):
         alphabet_sweep(ctx, dendropy, alph, pending)
-    ncases = ctx.pick(10000, 400000)
+    ncases = ctx.pick(7000, 400000)
     max_leaves = ctx.pick(9, 14)
     reserve = ctx.pick(0, 420)      # time kept for the exhaustive part
     for k in range(ncases):
